@@ -308,7 +308,14 @@ def run_property(prop, scenarios, tier, seed, functions, stubs, assumptions, exp
           "assumptions": assumptions + ["z3 is sound", "one model step = one traced source line (bytecode-level interleavings inside a "
                                         "line are outside the claim)"],
           "wall_s": round(time.time() - t0, 3), "violations": len(vfiles)}
-    if merge:
+    if merge == "e2-primary":
+        # the model-checked part is the claimed level; the sequential (symbolic execution) part written just before is kept under it
+        seq = json.load(open(os.path.join(EVDIR, "%s.json" % prop)))
+        ev["coverage"]["sequential_part"] = dict(seq["coverage"], level="other")
+        ev["assumptions"] = ev["assumptions"] + [a for a in seq.get("assumptions", []) if a not in ev["assumptions"]]
+        ev["wall_s"] = round(ev["wall_s"] + seq.get("wall_s", 0), 3)
+        ev["violations"] = ev["violations"] + seq.get("violations", 0)
+    elif merge:
         base = json.load(open(os.path.join(EVDIR, "%s.json" % prop)))
         base["coverage"]["interleavings"] = dict(ev["coverage"], level="model_checking")
         base["coverage"]["known_findings_hit"] = list(base["coverage"].get("known_findings_hit", [])) + list(known_hit)
